@@ -76,8 +76,28 @@ def scen_union_receiver_keywords(r):
     return files, "\n".join(lines) + "\n", checks
 
 
-SCENARIOS = {"C07": [scen_object_unions, scen_constructor, scen_overload_rest, scen_union_receiver_keywords],
-             "C08": [scen_object_unions, scen_constructor, scen_overload_rest, scen_union_receiver_keywords]}
+def scen_layouts(r):
+    """calls of the shipped configuration written over two lines, behind `;`, before `rescue`, in one-line blocks: a row
+    entry may be a tuple of rows (the statement's lines): none of them may carry a diagnostic / one of them must"""
+    lines, checks = ["n = 1", 's = "s"'], []
+    def add(text, must):
+        first = len(lines) + 1
+        lines.extend(text.split("\n"))
+        checks.append((tuple(range(first, len(lines) + 1)), must))
+    forms = [
+        ("a%d = n +\n  2", False), ("a%d = n *\n  2", False), ("a%d = n <\n  2", False), ("a%d = n ==\n  2", False),
+        ('a%d = s +\n  "t"', False), ("a%d = n\n  .to_s", False), ("a%d = s\n  .upcase\n  .downcase", False),
+        ("a%d = n.to_s rescue nil", False), ("a%d = n.to_s; b%d = 2", False), ("a%d = s.upcase; b%d = s.downcase; c%d = 1", False),
+        ("[1, 2].each do |v%d| v%d.to_s end", False), ("[1, 2].each { |v%d| v%d.to_s }", False),
+        ('a%d = n +\n  "t"', True), ("a%d = s +\n  2", True), ("a%d = n.to_s(\"x\"); b%d = 2", True), ('a%d = s.upcase(1, 2, 3) rescue nil', True),
+    ]
+    for i, (f, must) in enumerate(r.sample(forms, 8)):
+        add(f.replace("%d", str(i)), must)
+    return {}, "\n".join(lines) + "\n", checks
+
+
+SCENARIOS = {"C07": [scen_object_unions, scen_constructor, scen_overload_rest, scen_union_receiver_keywords, scen_layouts],
+             "C08": [scen_object_unions, scen_constructor, scen_overload_rest, scen_union_receiver_keywords, scen_layouts]}
 
 
 def part_scenarios(want):
@@ -91,7 +111,7 @@ def part_scenarios(want):
                 x = wd.ti([wd.write(prog, "t.rb")])
             return fn.__name__, files, prog, checks, x
 
-        for name, files, prog, checks, x in C.pmap(one, list(range(ctx.n(32, 240))), par=8):
+        for name, files, prog, checks, x in C.pmap(one, list(range(ctx.n(40, 300))), par=8):
             if x.timeout:
                 continue
             rows = set(int(m.group(1)) for m in re.finditer(r'^t\.rb:::(\d+):::', x.out, re.M))
@@ -101,7 +121,9 @@ def part_scenarios(want):
                 part.evaluations += 1
                 part.count(name)
                 part.nontrivial.add(prog + str(row))
-                if (row in rows) == must:
+                span = row if isinstance(row, tuple) else (row,)
+                row = span[0]
+                if any(x in rows for x in span) == must:
                     part.agreed += 1
                 elif must:
                     part.failures.append(Failure("missed_definite_error", "%s: no diagnostic on row %d: %s" % (name, row, prog.split("\n")[row - 1]),
